@@ -119,10 +119,12 @@ static const char *T_B64[] = {"A", "z", "=", "+", "/", "\n", "\xff"};
 static const char *T_HEX[] = {"0", "a", "F", "g", "\xff"};
 static const char *T_QRY[] = {"&", "=", "%", "+", "a", " "};
 static const char *T_INI[] = {"a", "b", "=", "${a}", "${b}", "${", "}", "$", "{", "[", "]", "#", "\n", " ", "${%E}", "${!x}", "a=${a}\n", "a=${b}\n", "b=x${a}${a}\n"};
-static const char *T_INIF[] = {"@INCLUDE", " ", "inc.conf", "missing.conf", "\n", "a=b", "/", "${a}"};
+static const char *T_INIF[] = {"@INCLUDE inc.conf", "@INCLUDE empty.conf", "@INCLUDE missing.conf", "@INCLUDE", " ", "\n", "a=b", "#", "${a}", "/", "inc.conf"};
 static const char *T_AC[] = {"a", " ", "\t", "'", "\"", "\\", "<", "</", ">", "\n", "#", "1", "On", "s"};
 
 /* over-long lines: each special character at each of the last positions before the fgets boundary */
+static void setup_tmp(void);
+static void cleanup_tmp(void);
 static void run_longline(void) {
     const char *sp[] = {"'", "\"", "\\", " ", "<", ">", "a", "\n"};
     int bases[] = {4094, 4095, 4096, 4097, 4098, 8190, 8191, 8192, 8193, 8194};
@@ -154,6 +156,28 @@ static void run_longline(void) {
             if (a) { char cl[160]; snprintf(cl, sizeof cl, "asan:%s:qconfig_parse_str", a); vc_viol(cl, "sanitizer report on %s", key); }
             vc_case_end();
         }
+    /* @INCLUDE lines padded with blanks to lengths around PATH_MAX, naming a loadable / a missing file */
+    setup_tmp();
+    for (int total = 4070; total <= 4110; total++) for (int where = 0; where < 2; where++) for (int exists = 0; exists < 2; exists++) {
+        char key[96]; snprintf(key, sizeof key, "longinclude:%d:%d:%d", total, where, exists);
+        if (!vc_case("qconfig_parse_file", key)) continue;
+        n_eval++; n_nontrivial++; nalloc = 0;
+        const char *name = exists ? "inc.conf" : "missing.conf"; size_t nl = strlen(name);
+        char *doc = malloc(total + 64); char *q = doc; q += sprintf(q, "@INCLUDE ");
+        int pad = total - (int)nl; if (pad < 0) pad = 0;
+        if (where == 0) { memset(q, ' ', pad); q += pad; q += sprintf(q, "%s", name); }      /* blanks in front of the name */
+        else { q += sprintf(q, "%s", name); memset(q, ' ', pad); q += pad; }                 /* blanks behind the name */
+        q += sprintf(q, "\nk=v\n");
+        char path[600]; snprintf(path, sizeof path, "%s/main.conf", tmpdir);
+        int fd = open(path, O_WRONLY | O_CREAT | O_TRUNC, 0600); if (fd >= 0) { if (write(fd, doc, q - doc) < 0) {} close(fd); }
+        qlisttbl_t *t = qconfig_parse_file(NULL, path, '=');
+        if (t) t->free(t);
+        free(doc);
+        const char *a = vc_asan_check();
+        if (a) { char cl[160]; snprintf(cl, sizeof cl, "asan:%s:qconfig_parse_file", a); vc_viol(cl, "sanitizer report on %s", key); }
+        vc_case_end();
+    }
+    cleanup_tmp();
     free(buf);
     vc_sample("line of 4094..4098 / 8190..8194 bytes with each of ' \" \\ SP < > LF at the last 4 positions, unquoted / quoted");
 }
@@ -163,11 +187,13 @@ static void setup_tmp(void) {
     mkdir(tmpdir, 0700);
     char p[600]; snprintf(p, sizeof p, "%s/inc.conf", tmpdir);
     FILE *f = fopen(p, "w"); if (f) { fputs("x=1\ny=${x}\n", f); fclose(f); }
+    snprintf(p, sizeof p, "%s/empty.conf", tmpdir); f = fopen(p, "w"); if (f) { fputs("\n", f); fclose(f); }     /* shorter than any directive naming it */
     if (chdir(tmpdir) < 0) {}
 }
 static void cleanup_tmp(void) {
     char p[600];
     snprintf(p, sizeof p, "%s/inc.conf", tmpdir); unlink(p);
+    snprintf(p, sizeof p, "%s/empty.conf", tmpdir); unlink(p);
     snprintf(p, sizeof p, "%s/main.conf", tmpdir); unlink(p);
     if (chdir("/") < 0) {}
     rmdir(tmpdir);
